@@ -20,6 +20,7 @@ if [ ! -d "$CARGO_TARGET_DIR" ] && [ -d /verif/target/debug ]; then
   mkdir -p "$CARGO_TARGET_DIR"; cp -a /verif/target/debug "$CARGO_TARGET_DIR/debug" 2>/dev/null
 fi
 BIN="$(echo "$PROP" | tr 'A-Z' 'a-z')"
+rm -f "$CARGO_TARGET_DIR/debug/$BIN"   # never fall back to a stale binary when the build fails
 ( cd "$H" && cargo build --offline --bin "$BIN" 2>&1 | grep -E "^(error|warning: unused)|^\s+-->|Finished" | head -30 )
 [ -x "$CARGO_TARGET_DIR/debug/$BIN" ] || { echo "build failed"; exit 2; }
 cd "$R" && exec "$CARGO_TARGET_DIR/debug/$BIN" "$@"
